@@ -1,4 +1,4 @@
-(** C14 — proofs, part 1: the refutation witness and non-vacuity examples. *)
+(** C14 — proofs, part 1: the former refutation witness, now a positive example. *)
 From Coq Require Import String List NArith ZArith Bool Lia.
 From C33 Require Import Lib.Harness Lib.Bytes Lib.OMap C14.Model C14.Spec.
 Import ListNotations.
@@ -7,26 +7,27 @@ Open Scope Z_scope.
 Definition all_on : cfg := mkCfg true true true true true true.
 Definition node_cfg : cfg := mkCfg true true true false true true.
 
-(** the unrestricted statement *)
-Definition C14_del_after_add_full : Prop :=
-  forall c m b kA kD,
-    sorted m -> counters_wf m = true -> fresh c m b = true ->
-    exec_add c m b = Some kA -> exec_del c (write_all kA m) b = Some kD ->
-    obs_eq (write_all kD (write_all kA m)) m.
-
-(** witness: one failed self-transfer of 5 (receipt ExecPack) on an empty local DB *)
+(** the run that refuted the statement before Coins.ExecLocal looked at the receipt: one failed
+    self-transfer of 5 (receipt ExecPack) on an empty local DB.  The transaction now leaves the
+    receiver total alone when the block is connected, and remove after connect is observably
+    the identity on it. *)
 Definition w_addr : list N := bs "1Aqq"%string.
 Definition w_tx : tx := mkTx (bs "hash-of-tx-0001"%string) w_addr w_addr 100000 1 (bs "coins"%string) KTransfer 5.
 Definition w_blk : blk := mkBlk 1 1 (bs "B1"%string) (bs "B0"%string) [w_tx] (bs "S1"%string) None [].
 
-Lemma del_after_add_refuted : ~ C14_del_after_add_full.
+Lemma failed_transfer_no_local_effect : exists kA kD,
+  exec_add node_cfg [] w_blk = Some kA /\ exec_del node_cfg (write_all kA []) w_blk = Some kD /\
+  all_local_ok w_blk = false /\
+  get (coins_key w_addr) (write_all kA []) = None /\
+  get (tx_key (t_hash w_tx)) (write_all kA []) <> None /\
+  obs_eq (write_all kD (write_all kA [])) [].
 Proof.
-  intro H.
   destruct (exec_add node_cfg [] w_blk) as [kA|] eqn:EA; [|vm_compute in EA; discriminate].
   destruct (exec_del node_cfg (write_all kA []) w_blk) as [kD|] eqn:ED;
     [|vm_compute in EA; inversion EA; subst kA; vm_compute in ED; discriminate].
-  specialize (H node_cfg [] w_blk kA kD I eq_refl eq_refl EA ED).
+  exists kA, kD. split; [reflexivity|]. split; [exact ED|]. split; [vm_compute; reflexivity|].
   vm_compute in EA. inversion EA; subst kA. clear EA.
   vm_compute in ED. inversion ED; subst kD. clear ED.
-  vm_compute in H. discriminate.
+  split; [vm_compute; reflexivity|]. split; [vm_compute; discriminate|].
+  vm_compute. reflexivity.
 Qed.
